@@ -378,6 +378,26 @@ def run(ctx):
         if not any(o['rule'] == 'R-LODSYM' and o['status'] == 'violated' for o in ctx.obligations):
             ctx.ok('R-LODSYM', 'lod blocks', wrd, '%d statements, each within its own limit' % nl)
     ctx.floor('limit-of-detection statements', nl, 10)
+    # ---- R-SCALELINE: the data are written unscaled, so the declared scale factors are all 1
+    ctx.rule('R-SCALELINE', 'the scale-factor line declares 1 for every variable (the data block is written as it is), or the data are divided by the declared factor')
+    sc_print = prints[consts['SCALE_LINE'] - 1]
+    lc = [n for n in ast.walk(sc_print) if isinstance(n, (ast.ListComp, ast.GeneratorExp))]
+    if not lc:
+        ctx.undec('R-SCALELINE', 'scale line', where, 'scale line not built by a comprehension')
+    else:
+        elt = lc[0].elt
+        if isinstance(elt, ast.Constant) and str(elt.value) in ('1', '1.0'):
+            ctx.ok('R-SCALELINE', 'scale line', where, 'constant %r per dependent variable' % elt.value)
+        else:
+            src_attr = [c for c in ast.walk(elt) if isinstance(c, ast.Call) and dotted(c.func) == 'getattr' and len(c.args) >= 2]
+            key = const_str(src_attr[0].args[1]) if src_attr else None
+            divided = any(isinstance(b, ast.BinOp) and isinstance(b.op, ast.Div) and key and ("'%s'" % key) in norm(b.right) for st in fn.body if isinstance(st, ast.For) and st is not data_loop
+                          for b in ast.walk(st))
+            if divided:
+                ctx.ok('R-SCALELINE', 'scale line', where, 'declared factor %s and data divided by it' % key)
+            else:
+                ctx.violation(Finding('R-SCALELINE', RP, W, sc_print, 'the scale line declares %s per variable but the data block is written unscaled: the reader multiplies by the declared factor, so values of a variable '
+                                      'that carries such an attribute come back multiplied by it' % norm(elt)[:50]))
     # ---- R-MISSFMT: the declared code is written with at least the precision of the data cells that carry it
     ctx.rule('R-MISSFMT', 'the declared missing code is converted to text with at least as many significant digits as the data cells')
     tf0 = [c for c in walk_expr(data_loop) if isinstance(c, ast.Call) and isinstance(c.func, ast.Attribute) and c.func.attr == 'tofile']
